@@ -253,11 +253,12 @@ def _vargs(v):
 # ------------------------------------------------------------------------------------------------ tokens
 class Tok:
     """One element of an encoder shape.  kind: arr | map | begin | end | tag | item | loop | raw."""
-    __slots__ = ("kind", "n", "ctype", "val", "kinds", "ty", "arity", "how", "rng", "body", "line", "key")
+    __slots__ = ("kind", "n", "ctype", "val", "kinds", "ty", "arity", "how", "rng", "body", "line", "key", "head")
 
     def __init__(self, kind, **kw):
         self.kind = kind
         self.n = self.ctype = self.val = self.kinds = self.ty = self.how = self.rng = self.body = self.line = self.key = None
+        self.head = None      # the item's first byte as an abstract value, when a rule fixes the head form (C03 clause d)
         self.arity = 1
         for k, v in kw.items():
             setattr(self, k, v)
@@ -868,6 +869,14 @@ class Interp:
             if a[0] == "sym" and a[1] == "input-bytes" and i[0] == "range" and i[1] is not None and i[2] is not None and i[1][0] == "pos" and i[2][0] == "pos":
                 out.append((s, ("inslice", i[1], i[2])))
                 continue
+            if a[0] == "sym" and a[1] == "input-bytes" and i[0] == "pos":
+                hb = self.head_byte(s, i)
+                if hb is None:
+                    s.status = ("panic", "index past the end of the input")
+                    out.append((s, UNIT))
+                else:
+                    out.append((s, hb))
+                continue
             k = a[1] if a[0] == "sym" else "?"
             out.append((s, sym("%s[..]" % k, self.ty(n))))
         return out
@@ -1185,6 +1194,17 @@ class Interp:
             return e["cv"]
         return self.m.consts.get(e.get("def"))
 
+    def all_variants(self, adt):
+        """variant names of an enum (workspace ADTs from the facts, Option/Result built in); None if unknown"""
+        if adt == OPTION:
+            return frozenset(["Some", "None"])
+        if adt == RESULT:
+            return frozenset(["Ok", "Err"])
+        a = self.m.adts.get(adt)
+        if a is None or a.get("kind") != "Enum":
+            return None
+        return frozenset(v["name"] for v in a["variants"])
+
     def unknown_match(self, st, why):
         s2 = self.fork(st)
         st.spec = s2.spec = True
@@ -1279,9 +1299,16 @@ class Interp:
                 return self.match_all(sub_pairs(lambda fl: self.resolve(sym("%s.%s" % (key, fl)), st)), st)
             if f and f[0] == "notvar" and variant in f[1]:
                 return [(st, False)]
+            excluded = (f[1] if f and f[0] == "notvar" else frozenset()) | frozenset([variant])
+            allv = self.all_variants(adt)
+            if allv is not None and excluded >= allv:
+                # every other variant has already been ruled out on this path: the value *is* this variant
+                # (consecutive `if let V1 .. if let V2 ..` over an exhaustive enum must not leave a phantom arm)
+                st.facts[key] = ("variant", adt, variant)
+                return self.match_all(sub_pairs(lambda fl: self.resolve(sym("%s.%s" % (key, fl)), st)), st)
             s2 = self.fork(st)
             st.facts[key] = ("variant", adt, variant)
-            s2.facts[key] = ("notvar", (f[1] if f and f[0] == "notvar" else frozenset()) | frozenset([variant]))
+            s2.facts[key] = ("notvar", excluded)
             if not key.startswith("self"):
                 st.spec = s2.spec = True
             res = self.match_all(sub_pairs(lambda fl: self.resolve(sym("%s.%s" % (key, fl)), st)), st)
@@ -1404,6 +1431,10 @@ class Interp:
             x = n.get("x") or ""
             s.status = ("panic", x.split(":")[-1] if x else "panic")
             return [(s, UNIT)]
+        # ---- the byte at a decoder position (head byte of the next item)
+        if recv is not None and recv[0] == "sym" and recv[1] == "input-bytes" and name == "get" and len(args) == 1 and args[0][0] == "pos":
+            hb = self.head_byte(s, args[0])
+            return [(s, some(hb) if hb is not None else NONE)]
         # ---- byte sequences assembled by hand (raw head bytes)
         if recv is not None and name in ("to_be_bytes",) and not args:
             t = parse_type(ty or "")
@@ -1775,6 +1806,19 @@ class Interp:
         if t.kind == "item":
             return t.tok.kinds
         return None
+
+    def head_byte(self, s, pos):
+        """abstract value of the byte at a decoder position = first byte of the item that starts there"""
+        stream = s.streams.get(pos[1])
+        if stream is None or pos[2] >= len(stream):
+            return None
+        t = stream[pos[2]]
+        if t.kind == "item" and t.tok.head is not None:
+            return t.tok.head
+        if t.kind == "item" and t.tok.rng is not None and t.tok.how != "encode" and t.tok.val is not None and t.tok.val[0] == "c" \
+                and isinstance(t.tok.val[1], int) and not isinstance(t.tok.val[1], bool) and 0 <= t.tok.val[1] <= 23:
+            return t.tok.val          # minicbor's integer writers use the shortest (immediate) form
+        return sym("head-byte@%s" % pos[2], "u8")
 
     def derr(self, why, definite=True):
         return err(("derr", why, definite))
